@@ -360,7 +360,7 @@ def core_program(rng, ticks=True):
     g = Gen(rng, ticks=ticks, derived=False, forbid={"atom-key"})
     top = Scope()
     forms = []
-    templates = rng.sample(["adder", "count", "compose", "varsum", "internal", "apply", "shadowdef", "shadowdef", "shadowparam", "shadowparam", "collect", "redefine", "redefine", "plain", "plain", "plain"], rng.randint(3, 6))
+    templates = rng.sample(["adder", "count", "compose", "varsum", "internal", "apply", "shadowdef", "shadowdef", "shadowparam", "shadowparam", "collect", "redefine", "redefine", "sibling", "sibling", "plain", "plain", "plain"], rng.randint(3, 6))
     globals_ = []
     for t in templates:
         if t == "adder":        # closures of order 3
@@ -415,6 +415,36 @@ def core_program(rng, ticks=True):
                 forms.append(define("toplevel-thunk", lam([], [var(gname)], defs=[(gname, quote(vsym("local")))])))
                 forms.append(app("list", app("toplevel-thunk"), var(gname)))
                 top.vars[gname] = "sym"
+        elif t == "sibling":
+            # lexical, not dynamic: a procedure's free variable means the binding visible where the procedure was DEFINED,
+            # even when the caller - a sibling of the same scope, calling in tail position - binds the same name
+            # (as a parameter, a rest parameter or an internal definition)
+            x = g.fresh(top)
+            callee, caller = g.fresh(top, PROCNAMES), g.fresh(top, PROCNAMES)
+            if callee != caller and x not in (callee, caller):
+                y = rng.choice([n for n in NAMES if n != x])
+                forms.append(define(x, lit(rng.randint(10, 99))))
+                top.vars[x] = "int"
+                forms.append(define(callee, lam([y], [app("list", var(x), var(y))])))
+                kind = rng.choice(["param", "param", "rest", "define", "chain"])
+                arg = lit(rng.randint(1, 9))
+                if kind == "param":
+                    call = app(callee, var(x)) if rng.random() < 0.6 else app("apply", var(callee), app("list", var(x)))
+                    forms.append(define(caller, lam([x], [call])))
+                elif kind == "rest":
+                    forms.append(define(caller, lam([], [app(callee, app("car", var(x)))], rest=x)))
+                elif kind == "define":
+                    forms.append(define(caller, lam([y], [app(callee, var(y))], defs=[(x, quote(vsym("local")))])))
+                else:
+                    mid = g.fresh(top, PROCNAMES)
+                    if mid in (callee, caller):
+                        mid = caller + "2"
+                    forms.append(define(mid, lam([x], [if_(app("=", var(x), lit(0)), app(callee, var(x)), app(mid, app("-", var(x), lit(1))))])))
+                    forms.append(define(caller, lam([x], [app(mid, var(x))])))
+                    top.vars[mid] = "opaque"
+                forms.append(app(caller, arg))
+                forms.append(app("list", app(caller, arg), var(x)))
+                top.vars[callee] = "opaque"; top.vars[caller] = "opaque"
         elif t == "collect":
             # closures made in the iterations of a self-tail-call loop each keep the bindings of THEIR iteration
             i_, acc_ = rng.sample(NAMES, 2)
